@@ -23,6 +23,12 @@ func SiteName(site int) string {
 	return "?"
 }
 
+// LibSteps is the number of go-cose statements executed so far in this
+// process (0 in a plain build).
+//
+//go:norace
+func LibSteps() uint64 { return verifsim.Steps }
+
 // NumSites is the number of yield sites in the instrumented copy.
 func NumSites() int { return len(verifsim.SiteTable) - 1 }
 
